@@ -18,6 +18,8 @@ Check(e) ==
       [] e.kind = "create" -> CreateContract(e)
       [] e.kind = "getvalue" -> GetValueContract(e)
       [] e.kind = "derived" -> DerivedContract(e)
+      [] e.kind = "analyses" -> AnalysesContract(e)
+      [] e.kind = "subst" -> SubstContract(e)
       [] OTHER -> Verdict(<<"unknown_event_kind">>, <<>>, -1)
 
 Report(e) ==
